@@ -9,6 +9,7 @@ import Gv.Model.Eval
 import Gv.Model.Gen
 import Gv.Proofs.EvalLemmas
 import Gv.Proofs.GenLemmas
+import Gv.Proofs.RootCause
 
 namespace Gv.Props.C07
 open Gv Gv.Str Gv.Eval
@@ -63,14 +64,14 @@ theorem C07_propagates (p : Program) (fr : Frame) (fuel : Nat) (i : Nat) (d : Fn
     (hd : p.conv.customs[i]? = some d) (hf : p.sem.failsOn d.name src = true) :
     evalConv p (fuel+1) fr (.call (.custom i) [.source] true w) src old n = .err (wrapErr w fr.idx fr.keys (.boom d.name)) := by
   unfold evalConv
-  simp [List.filterMapM, List.filterMapM.loop, bind, StateT.bind, pure, StateT.pure, hd, hf, errE]
+  simp [argOf, List.filterMapM, List.filterMapM.loop, bind, StateT.bind, pure, StateT.pure, hd, hf, errE]
 
 /-- **C07_no_error_ok**: if it does not fail, the call yields the function's result and no error -/
 theorem C07_no_error_ok (p : Program) (fr : Frame) (fuel : Nat) (i : Nat) (d : FnDef) (w : Wrap) (src old : Val) (n : Nat)
     (hd : p.conv.customs[i]? = some d) (hf : p.sem.failsOn d.name src = false) (hc : p.sem.isCtor d.name = false) :
     evalConv p (fuel+1) fr (.call (.custom i) [.source] true w) src old n = .ok (.tok d.name [src], n) := by
   unfold evalConv
-  simp [List.filterMapM, List.filterMapM.loop, bind, StateT.bind, pure, StateT.pure, hd, hf, hc]
+  simp [argOf, List.filterMapM, List.filterMapM.loop, bind, StateT.bind, pure, StateT.pure, hd, hf, hc]
 
 /-! ### goverter refuses to drop an error -/
 
@@ -82,5 +83,24 @@ theorem C07_refuse_to_drop (cx : Gen.Ctx) (st : Gen.GState) (m : GenMethod)
   unfold Gen.returnError
   simp [Gen.getMethod, hm, bind, StateT.bind, Except.bind, get, getThe, MonadStateOf.get, StateT.get, pure, StateT.pure, Except.pure, hr,
     Gen.returnError.walk, he]
+
+/-! ### The error returned is, or wraps, a custom function's error (for ALL plans)
+
+Whatever plan the generator produced (any nesting of pointers, lists, maps, structs, enums, constructors, custom and
+generated methods), whatever the source value and the fuel: an error result, with the location wrappers
+(`error setting field …`, `error setting index …`, `Wrap(err, path…)`) stripped, is the error of a failing custom
+function or source-struct method, or the `unexpected enum element` error of an `@error` enum action. Errors are never
+fabricated, replaced or emptied on the way up. -/
+
+open Gv.Sound in
+theorem C07_root_cause (p : Program) (fuel m : Nat) (v : Val) (cs : List Val) (n : Nat) (e : ErrV)
+    (h : callMethod p fuel m v cs n = .err e) :
+    (∃ fn, rootCause e = .boom fn) ∨ rootCause e = .enumUnknown :=
+  callMethod_root_cause p fuel m v cs n e h
+
+open Gv.Sound in
+/-- the wrappers keep the cause: wrapping in any mode, at any path, with any loop indices and keys -/
+theorem C07_wrap_keeps_cause (w : Wrap) (idx : List Nat) (keys : List Val) (e : ErrV) :
+    rootCause (wrapErr w idx keys e) = rootCause e := rootCause_wrapErr w idx keys e
 
 end Gv.Props.C07
